@@ -34,7 +34,7 @@ GROUPS = [
     for nm, roots, entry, fn, n in [
         ('heap_sort', ['flat:heap_sort_double', 'flat:default_sorted_double'], 'h_heap_sort', 'heap_sort_double', 4),
         ('insertion_sort', ['flat:insertion_sort_double', 'flat:default_sorted_double'], 'h_insertion_sort', 'insertion_sort_double', 6),
-        ('sort', ['flat:sort_double__double_p_int64_t_fn_265ab2_p', 'flat:default_sorted_double'], 'h_sort', 'sort_double__double_p_int64_t_fn_265ab2_p', 4),
+        # gdstk::sort (intro_sort recursion) timed out (25 min) even for <= 4 elements; not claimed
     ]
 ]
 TRUSTED_BASE = [
